@@ -257,35 +257,46 @@ Qed.
 
 (* ================= byte compaction ================= *)
 
+Lemma pdf_bytes_of_t b0 b1 b2 b3 b4 b5 :
+  is_byte b0 -> is_byte b1 -> is_byte b2 -> is_byte b3 -> is_byte b4 -> is_byte b5 ->
+  let t := ((((b0 * 256 + b1) * 256 + b2) * 256 + b3) * 256 + b4) * 256 + b5 in
+  t / 1099511627776 mod 256 = b0 /\ t / 4294967296 mod 256 = b1 /\ t / 16777216 mod 256 = b2 /\
+  t / 65536 mod 256 = b3 /\ t / 256 mod 256 = b4 /\ t mod 256 = b5.
+Proof. unfold is_byte. cbv zeta. intros. repeat split; lia. Qed.
+
+Lemma pdf_base900_five t : 0 <= t < 281474976710656 ->
+  ((((t / 900 / 900 / 900 / 900) mod 900 * 900 + (t / 900 / 900 / 900) mod 900) * 900 +
+    (t / 900 / 900) mod 900) * 900 + (t / 900) mod 900) * 900 + t mod 900 = t.
+Proof. intros. lia. Qed.
+
 Lemma pdf_sixpack_roundtrip b0 b1 b2 b3 b4 b5 :
   is_byte b0 -> is_byte b1 -> is_byte b2 -> is_byte b3 -> is_byte b4 -> is_byte b5 ->
   exists w0 w1 w2 w3 w4, pdf_sixpack b0 b1 b2 b3 b4 b5 = [w0; w1; w2; w3; w4] /\
     cw900 w0 /\ cw900 w1 /\ cw900 w2 /\ cw900 w3 /\ cw900 w4 /\
     pdfs_bytes6 w0 w1 w2 w3 w4 = Some [b0; b1; b2; b3; b4; b5].
 Proof.
-  unfold is_byte, cw900. intros H0 H1 H2 H3 H4 H5. unfold pdf_sixpack.
-  set (t := ((((b0 * 256 + b1) * 256 + b2) * 256 + b3) * 256 + b4) * 256 + b5).
-  assert (0 <= t < 281474976710656) as Ht by (unfold t; lia).
+  intros H0 H1 H2 H3 H4 H5. unfold pdf_sixpack.
+  destruct (pdf_bytes_of_t b0 b1 b2 b3 b4 b5 H0 H1 H2 H3 H4 H5) as (E0 & E1 & E2 & E3 & E4 & E5).
+  cbv zeta in E0, E1, E2, E3, E4, E5.
+  set (t := ((((b0 * 256 + b1) * 256 + b2) * 256 + b3) * 256 + b4) * 256 + b5) in *.
+  assert (0 <= t < 281474976710656) as Ht by (unfold is_byte in *; unfold t; lia).
+  clearbody t. clear H0 H1 H2 H3 H4 H5.
+  pose proof (pdf_base900_five t Ht) as Et.
+  assert (0 <= t / 900) as P1 by (apply Z.div_pos; lia).
+  assert (0 <= t / 900 / 900) as P2 by (apply Z.div_pos; lia).
+  assert (0 <= t / 900 / 900 / 900) as P3 by (apply Z.div_pos; lia).
+  assert (0 <= t / 900 / 900 / 900 / 900) as P4 by (apply Z.div_pos; lia).
   rewrite (pdf_go_mod_nonneg t 900), (pdf_go_div_nonneg t 900) by lia.
-  set (t1 := t / 900).
-  assert (0 <= t1) as Ht1 by (unfold t1; lia).
-  rewrite (pdf_go_mod_nonneg t1 900), (pdf_go_div_nonneg t1 900) by lia.
-  set (t2 := t1 / 900).
-  assert (0 <= t2) as Ht2 by (unfold t2; lia).
-  rewrite (pdf_go_mod_nonneg t2 900), (pdf_go_div_nonneg t2 900) by lia.
-  set (t3 := t2 / 900).
-  assert (0 <= t3) as Ht3 by (unfold t3; lia).
-  rewrite (pdf_go_mod_nonneg t3 900), (pdf_go_div_nonneg t3 900) by lia.
-  set (t4 := t3 / 900).
-  assert (0 <= t4) as Ht4 by (unfold t4; lia).
-  rewrite (pdf_go_mod_nonneg t4 900) by lia.
+  rewrite (pdf_go_mod_nonneg (t / 900) 900), (pdf_go_div_nonneg (t / 900) 900) by lia.
+  rewrite (pdf_go_mod_nonneg (t / 900 / 900) 900), (pdf_go_div_nonneg (t / 900 / 900) 900) by lia.
+  rewrite (pdf_go_mod_nonneg (t / 900 / 900 / 900) 900), (pdf_go_div_nonneg (t / 900 / 900 / 900) 900) by lia.
+  rewrite (pdf_go_mod_nonneg (t / 900 / 900 / 900 / 900) 900) by lia.
   do 5 eexists. split; [reflexivity|].
-  repeat (split; [lia|]).
-  unfold pdfs_bytes6.
-  assert ((((t4 mod 900 * 900 + t3 mod 900) * 900 + t2 mod 900) * 900 + t1 mod 900) * 900 + t mod 900 = t) as Et
-    by (unfold t4, t3, t2, t1; lia).
-  rewrite Et. replace (t <? 281474976710656) with true by lia.
-  f_equal. unfold t. repeat (f_equal; try lia).
+  unfold cw900.
+  repeat (split; [apply Z.mod_pos_bound; lia|]).
+  unfold pdfs_bytes6. rewrite Et.
+  replace (t <? 281474976710656) with true by lia.
+  rewrite E0, E1, E2, E3, E4, E5. reflexivity.
 Qed.
 
 (* strong induction in steps of six *)
@@ -298,7 +309,7 @@ Proof.
   cbn [pdf_sixpacks].
   repeat match goal with Hx : Forall _ (_ :: _) |- _ => inversion Hx; clear Hx; subst end.
   destruct (pdf_sixpack_roundtrip b0 b1 b2 b3 b4 b5) as (w0 & w1 & w2 & w3 & w4 & E & C0 & C1 & C2 & C3 & C4 & _); auto.
-  rewrite E. apply Forall_app. split; [repeat constructor; assumption|].
+  rewrite E. apply Forall_app. split; [repeat (apply Forall_cons; [assumption|]); apply Forall_nil|].
   eapply IH; [|eassumption|reflexivity]. simpl length. lia.
 Qed.
 
@@ -321,9 +332,14 @@ Qed.
 
 Lemma pdf_sixpacks_nonempty data : data <> [] -> pdf_sixpacks data <> [].
 Proof.
-  destruct data as [|b0 [|b1 [|b2 [|b3 [|b4 [|b5 rest]]]]]]; try congruence; try discriminate.
-  intros _. cbn [pdf_sixpacks]. unfold pdf_sixpack. discriminate.
+  destruct data as [|b0 [|b1 [|b2 [|b3 [|b4 [|b5 rest]]]]]]; intros H; try congruence;
+    cbn [pdf_sixpacks]; unfold pdf_sixpack; discriminate.
 Qed.
+
+Lemma pdfs_byte_run_901_step c0 c1 c2 c3 c4 rest : rest <> [] ->
+  pdfs_byte_run_901 (c0 :: c1 :: c2 :: c3 :: c4 :: rest) =
+  (dopt g <- pdfs_bytes6 c0 c1 c2 c3 c4; dopt r <- pdfs_byte_run_901 rest; Some (g ++ r)).
+Proof. destruct rest; [congruence | reflexivity]. Qed.
 
 Lemma pdf_sixpacks_901 data : Forall is_byte data -> (length data mod 6 <> 0)%nat ->
   pdfs_byte_run_901 (pdf_sixpacks data) = Some data.
@@ -345,8 +361,7 @@ Proof.
   assert (rest <> []) as Hrne.
   { intros ->. simpl in Hm. apply Hm. reflexivity. }
   pose proof (pdf_sixpacks_nonempty rest Hrne) as Hne.
-  destruct (pdf_sixpacks rest) as [|c5 cr] eqn:Er; [congruence|].
-  cbn [pdfs_byte_run_901]. rewrite D. cbn [pdfs_obind]. rewrite <- Er.
+  rewrite pdfs_byte_run_901_step by exact Hne. rewrite D. cbn [pdfs_obind].
   rewrite (IH (length rest)); [reflexivity | simpl length; lia | assumption | reflexivity |].
   simpl length in Hm.
   replace (S (S (S (S (S (S (length rest))))))) with (length rest + 1 * 6)%nat in Hm by lia.
